@@ -17,6 +17,10 @@ pub struct OscCase {
     pub frames: u64,
     /// power-of-two rate and dyadic frequencies: the phase accumulation is exact
     pub exact: bool,
+    /// per-frame path only: the frequency signal ends after this many frames (it then reports
+    /// exhaustion and yields 0 Hz) — one frequency frame must still be consumed per output frame
+    #[serde(default)]
+    pub hz_len: Option<u64>,
 }
 
 /// step as an integer multiple of 2^-64, rounded to nearest (exact whenever representable)
@@ -67,7 +71,8 @@ pub fn check_osc(c: &OscCase, st: &mut Stats) -> CheckResult {
 
     // five independent, identically driven instances: phase, sine, saw, square, simplex
     let cnt: Vec<Counters> = (0..5).map(|_| Counters::new()).collect();
-    let mk = |i: usize| FnProbe::new(None, hz_at as fn(u64) -> f64, cnt[i].clone());
+    let hz_len = if varying { c.hz_len } else { None };
+    let mk = |i: usize| FnProbe::new(hz_len, hz_at as fn(u64) -> f64, cnt[i].clone());
     enum Five {
         Const(signal::Phase<signal::ConstHz>, signal::Sine<signal::ConstHz>, signal::Saw<signal::ConstHz>, signal::Square<signal::ConstHz>, signal::NoiseSimplex<signal::ConstHz>),
         Var(
@@ -141,7 +146,7 @@ pub fn check_osc(c: &OscCase, st: &mut Stats) -> CheckResult {
             }
         }
         // advance the model
-        let s = steps[(n % steps.len() as u64) as usize];
+        let s = if hz_len.map_or(false, |l| n >= l) { 0.0 } else { steps[(n % steps.len() as u64) as usize] };
         match scaled_round(s) {
             Some((v, ex)) => {
                 acc = (acc + (v & mask)) & mask;
@@ -161,6 +166,7 @@ pub fn check_osc(c: &OscCase, st: &mut Stats) -> CheckResult {
     st.class_if(c.frames > 100_000, "run longer than 1e5 frames");
     st.class_if(c.exact, "exact regime");
     st.class_if(hz.iter().any(|h| *h == 0.0), "zero frequency");
+    st.class_if(hz_len.map_or(false, |l| l < c.frames), "frequency signal exhausted during the run");
     Ok(())
 }
 
@@ -257,7 +263,7 @@ fn step_strategy(exact: bool) -> BoxedStrategy<f64> {
 
 pub fn osc_strategy(max_frames: u64) -> impl Strategy<Value = OscCase> {
     any::<bool>().prop_flat_map(move |exact| {
-        (rate_strategy(exact), proptest::collection::vec(step_strategy(exact), 1..6), 1u64..max_frames, any::<bool>()).prop_map(move |(rate, steps, frames, constant)| {
+        (rate_strategy(exact), proptest::collection::vec(step_strategy(exact), 1..6), 1u64..max_frames, any::<bool>(), prop_oneof![2 => Just(None), 1 => (0u64..200).prop_map(Some)]).prop_map(move |(rate, steps, frames, constant, hz_len)| {
             let mut hz: Vec<f64> = steps.iter().map(|s| s * rate).collect();
             // exact regime: step * rate must itself be exact and divide back exactly (power-of-two rate: yes)
             if constant {
@@ -267,7 +273,7 @@ pub fn osc_strategy(max_frames: u64) -> impl Strategy<Value = OscCase> {
             if hz.is_empty() {
                 hz.push(0.0);
             }
-            OscCase { rate: rate.to_bits(), hz: hz.iter().map(|h| h.to_bits()).collect(), frames, exact }
+            OscCase { rate: rate.to_bits(), hz: hz.iter().map(|h| h.to_bits()).collect(), frames, exact, hz_len }
         })
     })
 }
@@ -280,16 +286,16 @@ pub fn run(ctx: &mut Ctx) {
     );
     ctx.assume("the phase used by an oscillator is observed through an identically driven Phase signal (same code, same frequency sequence); exact regime: phase_n == frac(sum of steps) exactly; general: circular distance <= n*2^-52*(1+step_max)");
     ctx.assume("sine compared with 2 sin(pi p) cos(pi p) within 1e-12, saw with 1-2p within 4 ulp, square exactly; how the noise counter behaves past u64::MAX is not asserted, only that every frame is produced, in range and reproducible");
-    for c in ["step >= 1 (frequency at or above the rate)", "varying frequency", "run longer than 1e5 frames", "exact regime", "seed within a run length of u64::MAX"] {
+    for c in ["step >= 1 (frequency at or above the rate)", "varying frequency", "run longer than 1e5 frames", "exact regime", "seed within a run length of u64::MAX", "frequency signal exhausted during the run"] {
         ctx.require_class(c);
     }
     ctx.prop("oscillators/random", ctx.pick(20_000, 100_000), osc_strategy(2000), check_osc);
     let long = ctx.pick(1_000_000u64, 20_000_000);
     let long_cases = vec![
-        OscCase { rate: 44100f64.to_bits(), hz: vec![1e-7f64.to_bits()], frames: long, exact: false },
-        OscCase { rate: 48000f64.to_bits(), hz: vec![(48000.0f64 * 1e9).to_bits()], frames: long / 4, exact: false },
-        OscCase { rate: 44100f64.to_bits(), hz: vec![440f64.to_bits(), 880f64.to_bits(), 0f64.to_bits()], frames: long / 4, exact: false },
-        OscCase { rate: 65536f64.to_bits(), hz: vec![(65536.0f64 * 3.0 / 1024.0).to_bits(), 4096f64.to_bits()], frames: long / 4, exact: true },
+        OscCase { rate: 44100f64.to_bits(), hz: vec![1e-7f64.to_bits()], frames: long, exact: false, hz_len: None },
+        OscCase { rate: 48000f64.to_bits(), hz: vec![(48000.0f64 * 1e9).to_bits()], frames: long / 4, exact: false, hz_len: None },
+        OscCase { rate: 44100f64.to_bits(), hz: vec![440f64.to_bits(), 880f64.to_bits(), 0f64.to_bits()], frames: long / 4, exact: false, hz_len: None },
+        OscCase { rate: 65536f64.to_bits(), hz: vec![(65536.0f64 * 3.0 / 1024.0).to_bits(), 4096f64.to_bits()], frames: long / 4, exact: true, hz_len: None },
     ];
     let n = long_cases.len() as u64;
     ctx.par_enumerate("oscillators/long-runs", true, n, move |i| long_cases[i as usize].clone(), check_osc);
